@@ -299,7 +299,7 @@ func (mz *materialiser) object(st *State, t types.Type, a [3]string) string {
 	if arr, ok := t.Underlying().(*types.Array); ok && mz.enc.l.cells(arr.Elem()) == 1 {
 		// bulk read of a scalar array
 		so := mz.enc.l.leafSorts(arr.Elem())[0]
-		inner := sel(sel(st.heaps[so], a[0]), a[1])
+		inner := sel(sel(mz.enc.heap(st, so), a[0]), a[1])
 		var terms []string
 		for k := int64(0); k < arr.Len(); k++ {
 			terms = append(terms, sel(inner, bvadd(a[2], bv64(k))))
@@ -338,7 +338,7 @@ func (mz *materialiser) object(st *State, t types.Type, a [3]string) string {
 	sorts := mz.enc.l.leafSorts(t)
 	L := make([]string, len(sorts))
 	for k, so := range sorts {
-		L[k] = sel(sel(sel(st.heaps[so], a[0]), a[1]), bvadd(a[2], bv64(int64(k))))
+		L[k] = sel(sel(sel(mz.enc.heap(st, so), a[0]), a[1]), bvadd(a[2], bv64(int64(k))))
 	}
 	return mz.value(st, t, L)
 }
@@ -395,7 +395,7 @@ func (mz *materialiser) slice(st *State, t types.Type, L []string) string {
 				elems = append(elems, mz.object(st, et, ea))
 			}
 		} else {
-			inner := sel(sel(st.heaps[so], a[0]), a[1])
+			inner := sel(sel(mz.enc.heap(st, so), a[0]), a[1])
 			var terms []string
 			for k := uint64(0); k < ln; k++ {
 				terms = append(terms, sel(inner, bvadd(a[2], bv64(int64(k)))))
